@@ -39,8 +39,6 @@ UNITS = {
 EQ_RTOL = F(1, 10 ** 6)          # published Numeric.PRECISION ("EQUAL_PRECISION" of the documentation)
 GREY_LO = F(1, 10 ** 8)          # relative offsets between GREY_LO and GREY_HI are never generated (guard)
 GREY_HI = F(9, 10 ** 6)
-ABS_GUARD = F(5, 10 ** 8)        # differing values closer than this are never generated: numpy's implicit absolute
-#                                  tolerance (1e-8) would call them equal although they differ relatively
 NONE = {"none": True}            # the literal `none`
 
 
@@ -352,9 +350,7 @@ def close(a, b):
         raise RefError("comparison with zero is not generated")
     if GREY_LO < d < GREY_HI:
         raise RefError("relative offset %s in the grey zone" % float(d))
-    if d > EQ_RTOL and abs(a - b) < ABS_GUARD:
-        raise RefError("values differ by less than 5e-8 absolutely (implicit absolute tolerance would matter)")
-    return d <= EQ_RTOL
+    return d <= EQ_RTOL          # purely relative (the library passes atol=0 since the round-2 observation)
 
 
 def eval_expr(env, e, selfnode):
@@ -604,7 +600,8 @@ def step(env, st):
             new.append((p, n.copy()))
         for p, n in new:
             env.nodes[p] = n
-        env.last = None
+        # property lines directly below an import that re-creates exactly ONE node extend that imported copy
+        env.last = new[0][0] if len(new) == 1 else None
     elif k == "source":
         sub = REnv()
         if st["name"] in env.sources:
